@@ -294,14 +294,10 @@ def judge_hv(cx: Ctx, case: dict[str, Any], model: dict[str, Any] | None = None,
     d = len(ref)
     truth = brute_hv(pts, ref)
     got = as_int(call(cx.compute_hypervolume, fl(pts), np.array(ref, dtype=float), assume_pareto=ap))
-    anti = is_antichain(pts)
     w = dict(case, got=got, want=truth)
     if got != truth:
-        if ap and d == 2 and not anti and not isinstance(got, Exc):
-            # the docstring's "does not change the result even if this argument is wrongly given" is false in 2-D
-            return bad("assume_pareto-2d-on-non-pareto-input",
-                       "compute_hypervolume(%s, ref=%s, assume_pareto=True) = %s, dominated volume %s (the rows are not a Pareto set; "
-                       "the docstring promises the flag never changes the result)" % (pts, ref, got, truth), w, dim=2)
+        # (assume_pareto=True included, in every dimension: the docstring promises the flag never changes the result,
+        #  and since the repair of F22 the 2-D sweep takes the running minimum, so it does not)
         return bad("wrong-volume", "compute_hypervolume(%s, ref=%s%s) = %s but the dominated volume is %s" % (
             pts, ref, ", assume_pareto=True" if ap else "", got, truth), w, dim=d, assume_pareto=ap)
     if tie:
@@ -309,8 +305,7 @@ def judge_hv(cx: Ctx, case: dict[str, Any], model: dict[str, Any] | None = None,
         if m.get("brute") != truth:
             return bad("tie", "Lean hvBrute %s differs from the Python cell count %s" % (m.get("brute"), truth), w, tie=True)
         mv = m.get("ap" if ap else "default")
-        # (2-D, assume_pareto on a non-Pareto set: the value depends on numpy's order of ties in argsort; not compared)
-        if mv != got and not (ap and d == 2 and not anti):
+        if mv != got:
             return bad("tie", "hv model (%s) gives %s, the code %s" % ("assume_pareto" if ap else "default", mv, got), w, tie=True)
     return None
 
@@ -348,7 +343,7 @@ def judge_hv_special(cx: Ctx, case: dict[str, Any], model: dict[str, Any] | None
         if finite:
             ipts, iref = [[int(x) for x in p] for p in pts], [int(x) for x in ref]
             truth = brute_hv(ipts, iref)
-            if obs != truth and not (ap and len(ref) == 2 and not is_antichain(ipts)):
+            if obs != truth:
                 return bad("wrong-volume", "compute_hypervolume(%s, ref=%s) = %s, dominated volume %s" % (case["pts"], case["ref"], obs, truth), dict(w, want=truth), dim=len(ref), assume_pareto=ap)
         elif obs == "inf":
             return bad("degenerate-infinite-box", "every row with an infinite extent touches the reference point in another coordinate, so the dominated "
@@ -359,8 +354,7 @@ def judge_hv_special(cx: Ctx, case: dict[str, Any], model: dict[str, Any] | None
         m = model if model is not None else ask_model({"op": "hv", "pts": case["pts"], "ref": case["ref"], "ap": ap})
         mobs = m.get("v") if m.get("k") == "fin" else m.get("k")
         finite = all(abs(x) != INF and x == x for x in itertools.chain(ref, *pts))
-        skip = finite and ap and len(ref) == 2 and not is_antichain([[int(x) for x in p] for p in pts])
-        if mobs != obs and not skip:
+        if mobs != obs:
             return bad("tie", "hv model gives %s, the code %s" % (m, obs), w, tie=True)
     return None
 
@@ -583,10 +577,23 @@ def stage_hv_lattice(cx: Ctx, n_cases: int, max_n: int, shrunk: set[str]) -> Non
             for comb in itertools.combinations_with_replacement(grid, k):
                 sets.append(([list(p) for p in comb], [2, 2]))
                 sets.append(([list(p) for p in comb], [3, 3]))
+    # 2-D inputs that are NOT what assume_pareto assumes: dominated rows, rows tied in column 0 (either order), duplicates
+    sets += [([[0, 0], [2, 3]], [4, 6]), ([[0, 0], [1, 1]], [2, 2]), ([[1, 2], [1, 1], [1, 3]], [4, 4]), ([[1, 1], [1, 2], [1, 3]], [4, 4]),
+             ([[0, 3], [1, 2], [1, 1], [1, 1], [2, 3], [3, 0]], [4, 4]), ([[2, 2], [2, 2], [0, 3], [0, 3], [3, 3]], [3, 4])]
+    for _ in range(max(40, n_cases // 10)):
+        n = r.randint(2, max_n)
+        pts = [[r.randint(0, 3), r.randint(0, 5)] for _ in range(n)]
+        pts += [list(r.choice(pts)) for _ in range(r.randint(0, 2))]
+        r.shuffle(pts)
+        sets.append((pts, gen_ref(r, pts)))
     cases, reqs = [], []
     for pts, ref in sets:
         d = len(ref)
         chk.count("hv:dim=%d" % d)
+        if d == 2 and not is_antichain(pts):
+            chk.count("hv:2d assume_pareto on non-Pareto rows")
+        if d == 2 and len({p[0] for p in pts}) < len(pts):
+            chk.count("hv:2d rows tied in column 0")
         chk.count("hv:branch=%s" % ("2d-sweep" if d == 2 else "1pt" if len({tuple(p) for p in pts}) == 1 else
                                     "2pt" if len({tuple(p) for p in pts}) == 2 else "wfg"))
         for ap in (False, True):
@@ -683,8 +690,6 @@ def stage_hv_continuous(cx: Ctx, n_cases: int) -> None:
             chk.broke("correspondence", {"stage": "hv-continuous", "case": w, "what": "Lean WFG model %s differs from inclusion-exclusion %s (exact rationals)" % (
                 Fraction(m["default"], den ** d), truth)})
         for ap in (False, True):
-            if ap and d == 2:
-                continue
             got = call(cx.compute_hypervolume, pts.copy(), ref.copy(), assume_pareto=ap)
             if isinstance(got, Exc):
                 chk.violation({"fn": "compute_hypervolume", "kind": "exception"}, dict(w, got=got, assume_pareto=ap), "compute_hypervolume raised %s on %s" % (got, w))
